@@ -30,6 +30,15 @@ Theorem C11_first_acceptable : forall ds t rest deadline tau,
 Proof. exact first_acceptable_returned. Qed.
 Print Assumptions C11_first_acceptable.
 
+(** for EVERY delivery stream and every cancel/close instant, at the level of the whole call (all tries):
+    a call that returns a response returns, at its arrival instant, an accepted datagram of its stream,
+    and every datagram delivered to the call before it was rejected by the matcher — the first acceptable one *)
+Theorem C11_response_is_first_acceptable : forall n s tau cancel close ds,
+  result (run_call false n s tau cancel close ds) = Got ->
+  exists pre rest, ds = pre ++ (end_time (run_call false n s tau cancel close ds), true) :: rest /\ all_rejected pre.
+Proof. exact got_is_first_acceptable. Qed.
+Print Assumptions C11_response_is_first_acceptable.
+
 (** when a call has returned (its cancel has run) its transaction id is not pending: immediately reusable *)
 Theorem C11_reusable : forall (evs : list event) (i : nat),
   let s := run_events true evs in
